@@ -93,6 +93,10 @@ pub fn expected_hashes(pi: &PublicInput) -> Hashes {
         a += BigUint::one();
     }
     let _ = BigUint::zero();
+    // program cells first, output cells last: a page with fewer cells than both regions together is too short
+    if n_prog + n_out > pi.main_page.len() {
+        return Hashes::Malformed("main page shorter than program + output".into());
+    }
     match (combos(&prog), combos(&out)) {
         (Some(ps), Some(os)) => {
             let mut v = Vec::new();
